@@ -338,6 +338,20 @@ class _FnAnalysis(object):
         if a.kwarg:
             self.params.append(a.kwarg.arg)
         self.flags = self._find_flags()
+        # identity tests between two locals (``if net is original_net:``)
+        # partition the state like flags do: "copy on first write, guarded
+        # by an identity test with the original"
+        self.idpairs = []
+        for n in self.cfg.nodes:
+            if n.kind == "assume" and isinstance(n.ast, ast.Compare) and \
+                    len(n.ast.ops) == 1 and isinstance(
+                        n.ast.ops[0], (ast.Is, ast.IsNot)) and \
+                    isinstance(n.ast.left, ast.Name) and \
+                    isinstance(n.ast.comparators[0], ast.Name):
+                pr = (n.ast.left.id, n.ast.comparators[0].id)
+                if pr not in self.idpairs and pr[0] not in self.params:
+                    self.idpairs.append(pr)
+        self.idpairs = self.idpairs[:2]
 
     def _find_flags(self):
         assigned = {}
@@ -680,6 +694,12 @@ class _FnAnalysis(object):
                                                            self.fn))):
                         self._mutate(t, env, s, "%s %s= ..." % (
                             t.id, type(s.op).__name__))
+                    elif isinstance(s.op, (ast.BitOr, ast.BitAnd, ast.Sub,
+                                           ast.BitXor)) and \
+                            self._set_typed(t.id, s.value):
+                        # a |= b on sets changes the set a names in place
+                        self._mutate(t, env, s, "%s %s= ... (a set)" % (
+                            t.id, type(s.op).__name__))
                     else:
                         old = env.get(t.id, VUNK)
                         nv = self.val(s.value, env)
@@ -752,6 +772,24 @@ class _FnAnalysis(object):
             self._mutate(t.value, env, t, "%s = ..." % unparse(t))
             self._weak(t.value, v, env)
 
+    def _set_typed(self, name, value):
+        """Is the variable (or the right-hand side, when it is a name)
+        certainly a set somewhere in the function: bound to a set display,
+        a set comprehension or set(...)?"""
+        names = {name}
+        if isinstance(value, ast.Name):
+            names.add(value.id)
+        for n in _walk_no_scopes(self.fn):
+            if isinstance(n, ast.Assign) and any(
+                    isinstance(t, ast.Name) and t.id in names
+                    for t in n.targets):
+                v = n.value
+                if isinstance(v, (ast.Set, ast.SetComp)) or (
+                        isinstance(v, ast.Call) and
+                        call_name(v)[0] in ("set", "frozenset")):
+                    return True
+        return False
+
     # -- fixpoint with flag partitioning ---------------------------------------------------
     def run(self):
         cfg = self.cfg
@@ -763,7 +801,8 @@ class _FnAnalysis(object):
             if va is not None:     # *args / **kwargs are fresh containers
                 init[va.arg] = Val([FRESH], [("P", va.arg, 1)],
                                    [("P", va.arg, 2)])
-        key0 = tuple(None for _ in self.flags)
+        key0 = tuple(None for _ in self.flags) + \
+            tuple(None for _ in self.idpairs)
         state_out = {}
         state_in = {n.id: {} for n in cfg.nodes}
         state_in[cfg.entry.id] = {key0: init}
@@ -808,7 +847,50 @@ class _FnAnalysis(object):
                 return None, None
             key = key[:i] + (n.polarity,) + key[i + 1:]
             return key, env
+        nf = len(self.flags)
+        if n.kind == "assume" and isinstance(n.ast, ast.Compare) and \
+                len(n.ast.ops) == 1 and isinstance(
+                    n.ast.ops[0], (ast.Is, ast.IsNot)) and \
+                isinstance(n.ast.left, ast.Name) and \
+                isinstance(n.ast.comparators[0], ast.Name) and \
+                (n.ast.left.id, n.ast.comparators[0].id) in self.idpairs:
+            i = nf + self.idpairs.index((n.ast.left.id,
+                                         n.ast.comparators[0].id))
+            same = n.polarity if isinstance(n.ast.ops[0], ast.Is) \
+                else not n.polarity
+            if key[i] is not None and key[i] != same:
+                return None, None
+            key = key[:i] + (same,) + key[i + 1:]
+            return key, env
         env2 = self._transfer(n, env)
+        if self.idpairs and n.kind in ("stmt", "iter") and n.ast is not None:
+            stored = set()
+            st_ = n.ast
+            tgts = []
+            if isinstance(st_, ast.Assign):
+                tgts = st_.targets
+            elif isinstance(st_, (ast.AugAssign, ast.AnnAssign)):
+                tgts = [st_.target]
+            elif isinstance(st_, ast.For):
+                tgts = [st_.target]
+            for t in tgts:
+                for x in ast.walk(t):
+                    if isinstance(x, ast.Name) and isinstance(x.ctx,
+                                                              ast.Store):
+                        stored.add(x.id)
+            for j, (a_, b_) in enumerate(self.idpairs):
+                i = nf + j
+                if a_ in stored and isinstance(st_, ast.Assign) and \
+                        len(st_.targets) == 1 and isinstance(
+                            st_.targets[0], ast.Name) and \
+                        isinstance(st_.value, ast.Name) and \
+                        st_.value.id == b_:
+                    key = key[:i] + (True,) + key[i + 1:]   # a = b
+                elif a_ in stored and isinstance(st_, ast.Assign) and \
+                        isinstance(st_.value, ast.Call):
+                    key = key[:i] + (False,) + key[i + 1:]  # a = New(..)
+                elif a_ in stored or b_ in stored:
+                    key = key[:i] + (None,) + key[i + 1:]
         if n.kind == "stmt" and isinstance(n.ast, ast.Assign) and \
                 len(n.ast.targets) == 1 and \
                 isinstance(n.ast.targets[0], ast.Name) and \
